@@ -414,6 +414,16 @@ func runC18(p *core.Program, r *core.Report) {
 		return
 	}
 	roles := opRoles(p, e)
+	// the increment instruction adds exactly one to the variable it names (every scheme's
+	// "index + 1" and "counter + 1" rest on it)
+	for _, name := range e.vm.SortedNames() {
+		if roles[name] != "inc" {
+			continue
+		}
+		sig := e.vm.Signature(name)
+		r.Check(sig.IncOK, "R18.2", "vm.(VM).Run/case "+name+"/adds exactly one to the named variable", p.Pos(e.vm.Handlers[name].Clause.Pos()), sig.IncWhy,
+			"the increment instruction does not store (value of the same variable) + 1: "+sig.IncWhy+" — every loop scheme counts its index and its counter with it")
+	}
 	hc := handlerClasses(p, e)
 	r.Analysed["instruction_roles"] = len(roles)
 	idx, size, cnt := e.conf.IndexVar, e.conf.SizeVar, e.conf.CountVar
@@ -886,6 +896,8 @@ func c18Length(p *core.Program, r *core.Report, e *engines, roles map[string]str
 func c18Controls() []core.Mutant {
 	C := "compiler/compiler.go"
 	return []core.Mutant{
+		{Name: "increment instruction adds two", File: "vm/vm.go", Old: "\t\t\ti := scope[key].(int)\n\t\t\ti++\n", New: "\t\t\ti := scope[key].(int)\n\t\t\ti += 2\n", Rule: "R18.2", Construct: "adds exactly one"},
+		{Name: "refactor: scope instructions without temporaries", File: "vm/vm.go", Old: "\t\t\ti := scope[key].(int)\n\t\t\ti++\n\t\t\tscope[key] = i\n", New: "\t\t\tscope[key] = scope[key].(int) + 1\n", Edits: [][2]string{{"\t\t\tvalue := vm.pop()\n\t\t\tscope[key] = value\n", "\t\t\tscope[key] = vm.pop()\n"}, {"\t\t\tscope := make(Scope)\n\t\t\tvm.scopes = append(vm.scopes, scope)\n", "\t\t\tvm.scopes = append(vm.scopes, make(Scope))\n"}}, Silent: true},
 		{Name: "any returns true when the collection is exhausted", File: C, Old: "\tcase \"any\":\n\t\tc.compile(node.Arguments[0])\n\t\tc.emit(OpBegin)\n\t\tvar loopBreak int\n\t\tc.emitLoop(func() {\n\t\t\tc.compile(node.Arguments[1])\n\t\t\tloopBreak = c.emit(OpJumpIfTrue, c.placeholder()...)\n\t\t\tc.emit(OpPop)\n\t\t})\n\t\tc.emit(OpFalse)", New: "\tcase \"any\":\n\t\tc.compile(node.Arguments[0])\n\t\tc.emit(OpBegin)\n\t\tvar loopBreak int\n\t\tc.emitLoop(func() {\n\t\t\tc.compile(node.Arguments[1])\n\t\t\tloopBreak = c.emit(OpJumpIfTrue, c.placeholder()...)\n\t\t\tc.emit(OpPop)\n\t\t})\n\t\tc.emit(OpTrue)", Rule: "R18.4", Construct: "BuiltinNode[any]/exhausted"},
 		{Name: "none leaves its scope open on the early exit", File: C, Old: "\tcase \"none\":\n\t\tc.compile(node.Arguments[0])\n\t\tc.emit(OpBegin)\n\t\tvar loopBreak int\n\t\tc.emitLoop(func() {\n\t\t\tc.compile(node.Arguments[1])\n\t\t\tc.emit(OpNot)\n\t\t\tloopBreak = c.emit(OpJumpIfFalse, c.placeholder()...)\n\t\t\tc.emit(OpPop)\n\t\t})\n\t\tc.emit(OpTrue)\n\t\tc.patchJump(loopBreak)\n\t\tc.emit(OpEnd)", New: "\tcase \"none\":\n\t\tc.compile(node.Arguments[0])\n\t\tc.emit(OpBegin)\n\t\tvar loopBreak int\n\t\tc.emitLoop(func() {\n\t\t\tc.compile(node.Arguments[1])\n\t\t\tc.emit(OpNot)\n\t\t\tloopBreak = c.emit(OpJumpIfFalse, c.placeholder()...)\n\t\t\tc.emit(OpPop)\n\t\t})\n\t\tc.emit(OpTrue)\n\t\tc.emit(OpEnd)\n\t\tc.patchJump(loopBreak)", Rule: "R18.1", Construct: "BuiltinNode[none]"},
 		{Name: "all leaves on a true predicate", File: C, Old: "\tcase \"all\":\n\t\tc.compile(node.Arguments[0])\n\t\tc.emit(OpBegin)\n\t\tvar loopBreak int\n\t\tc.emitLoop(func() {\n\t\t\tc.compile(node.Arguments[1])\n\t\t\tloopBreak = c.emit(OpJumpIfFalse, c.placeholder()...)", New: "\tcase \"all\":\n\t\tc.compile(node.Arguments[0])\n\t\tc.emit(OpBegin)\n\t\tvar loopBreak int\n\t\tc.emitLoop(func() {\n\t\t\tc.compile(node.Arguments[1])\n\t\t\tloopBreak = c.emit(OpJumpIfTrue, c.placeholder()...)", Rule: "R18.4", Construct: "BuiltinNode[all]/one iteration"},
